@@ -838,3 +838,138 @@ func CheckWrongKind(rep Reporter, eng Engine, ts *rs.TypeSystem, t *rs.Type, tv 
 		}
 	}
 }
+
+// CheckRejectedKey is the C12 monitor for typed maps of any key type. A repeated key is injected at a
+// random position of an otherwise legal assembly of tv: it must be refused with a repeated-key error — by
+// the key assembler, or, for keys assembled recursively, by the key's Finish, by the value assembler handed
+// out next, or at the map's Finish — and after a refusal that came before Finish the remaining entries go in
+// and the node reads as if the refused call had not happened.
+func CheckRejectedKey(rep Reporter, eng Engine, ts *rs.TypeSystem, t *rs.Type, tv model.Val, reprLevel bool, rng *fw.RNG) {
+	if t.Kind != "map" || len(tv.M) == 0 {
+		return
+	}
+	typed, reprP := eng.Proto(t.Name)
+	proto, level := typed, "type-level"
+	in := ts.TypeInput(t, tv)
+	kt, vt := ts.T(t.KeyType), ts.T(t.ValueType)
+	if reprLevel {
+		r, err := ts.ReprOf(t, tv)
+		if err != nil || reprP == nil {
+			return
+		}
+		proto, level, in, kt, vt = reprP, "representation-level", r, nil, nil
+	}
+	if proto == nil {
+		return
+	}
+	keyForm := "string"
+	if kt != nil && kt.Kind != "string" && kt.Kind != "enum" {
+		keyForm = "recursive-" + kt.Kind
+	}
+	sig := eng.Name() + ":" + level + ":" + keyForm
+	dupAt := 1 + rng.Intn(len(in.M))
+	dup := in.M[rng.Intn(dupAt)]
+	ctx := func() string {
+		return fmt.Sprintf("engine %s, %s builder of %s, repeated key %q injected before entry %d of %s", eng.Name(), level, t.Name, dup.K, dupAt, clip(in.Dump(), 500))
+	}
+	putKey := func(ka datamodel.NodeAssembler, k string) error {
+		if keyForm == "string" {
+			return ka.AssignString(k)
+		}
+		kv, perr := ts.ParseRepr(kt, model.String(k))
+		if perr != nil {
+			return fmt.Errorf("harness: key %q is not a %s: %v", k, kt.Name, perr)
+		}
+		return assembleTyped(ka, ts, kt, ts.TypeInput(kt, kv))
+	}
+	isRepeated := func(err error) bool {
+		var rk datamodel.ErrRepeatedMapKey
+		var rkp *datamodel.ErrRepeatedMapKey
+		return errors.As(err, &rk) || errors.As(err, &rkp) || strings.Contains(err.Error(), "repeat")
+	}
+	var node datamodel.Node
+	stage := ""
+	var failure string
+	func() {
+		defer func() {
+			if r := recover(); r != nil {
+				failure = fmt.Sprintf("panic: %v\n%s", r, clip(string(debug.Stack()), 1500))
+			}
+		}()
+		nb := proto.NewBuilder()
+		ma, err := nb.BeginMap(int64(len(in.M)))
+		if err != nil {
+			failure = "BeginMap: " + err.Error()
+			return
+		}
+		put := func(e model.Entry) error {
+			if err := putKey(ma.AssembleKey(), e.K); err != nil {
+				return err
+			}
+			return assembleTyped(ma.AssembleValue(), ts, vt, e.V)
+		}
+		for i := 0; i <= len(in.M); i++ {
+			if i == dupAt {
+				err := putKey(ma.AssembleKey(), dup.K)
+				switch {
+				case err != nil && isRepeated(err):
+					stage = "key"
+				case err != nil:
+					failure = "the repeated key was refused with another error: " + err.Error()
+					return
+				default:
+					verr := assembleTyped(ma.AssembleValue(), ts, vt, dup.V)
+					switch {
+					case verr != nil && isRepeated(verr):
+						stage = "value"
+					case verr != nil:
+						failure = "after the repeated key the value was refused with another error: " + verr.Error()
+						return
+					}
+				}
+			}
+			if i == len(in.M) {
+				break
+			}
+			if err := put(in.M[i]); err != nil {
+				failure = fmt.Sprintf("legal entry %d failed (repeated key refused at stage %q): %v", i, stage, err)
+				return
+			}
+		}
+		if err := ma.Finish(); err != nil {
+			if stage == "" && isRepeated(err) {
+				stage = "finish"
+				return
+			}
+			failure = fmt.Sprintf("Finish failed (repeated key refused at stage %q): %v", stage, err)
+			return
+		}
+		node = nb.Build()
+	}()
+	rep.Count("rejected_key_sequences", 1)
+	if failure != "" {
+		rep.Deviate("C12:typed-map:sequence-fails:"+sig, failure+"\n"+ctx())
+		return
+	}
+	switch stage {
+	case "":
+		rep.Deviate("C12:typed-map:repeated-key-accepted:"+sig, "no call reported the repeated key\n"+ctx())
+		return
+	case "finish":
+		rep.Count("rejected_key_at_finish", 1)
+		return
+	}
+	rep.Count("rejected_key_at_"+stage, 1)
+	want := tv
+	got := ReadTyped(node)
+	if reprLevel {
+		// the representation builder hands back the typed node
+		if !model.Equal(ReadTyped(repr(node)), in) {
+			rep.Deviate("C12:typed-map:rejected-key-left-a-trace:"+sig, fmt.Sprintf("after the refusal (at the %s) the finished node's representation reads %s\n%s", stage, clip(ReadTyped(repr(node)).Dump(), 500), ctx()))
+		}
+		return
+	}
+	if !model.Equal(got, want) {
+		rep.Deviate("C12:typed-map:rejected-key-left-a-trace:"+sig, fmt.Sprintf("after the refusal (at the %s) the finished node reads %s\n%s", stage, clip(got.Dump(), 500), ctx()))
+	}
+}
